@@ -321,6 +321,10 @@ class Ref:
                 ctl.append(("rst", w[2]))
             elif w[0] == "enable" and w[1] == cur:
                 ctl.append(("en", w[2]))
+            elif w[0] in ("reset_multi", "enable_multi"):
+                for d, c in w[1]:
+                    if d == cur:
+                        ctl.append(("rst" if w[0] == "reset_multi" else "en", c))
         return cur, ctl
 
     def set_reset(self, dom, level):
